@@ -350,6 +350,12 @@ Proof.
   revert l; induction pl as [|p pl IH]; intros [|w l] Hl; cbn in Hl; try discriminate; [reflexivity|].
   cbn [pweights concat]. rewrite !app_length, map_length, IH by lia. reflexivity.
 Qed.
+Lemma skipn_skipn' {X} (a b : nat) (l : list X) : skipn a (skipn b l) = skipn (b + a) l.
+Proof. revert l; induction b as [|b IH]; intros l; [reflexivity|]. destruct l; [destruct a; reflexivity|]. cbn [skipn plus]. apply IH. Qed.
+Lemma skipn_repeat' {X} (a : X) n k : skipn k (repeat a n) = repeat a (n - k).
+Proof. revert k; induction n as [|n IH]; intros [|k]; cbn; try reflexivity. apply IH. Qed.
+Lemma firstn_repeat' {X} (a : X) n k : firstn k (repeat a n) = repeat a (Nat.min k n).
+Proof. revert k; induction n as [|n IH]; intros [|k]; cbn; try reflexivity. f_equal. apply IH. Qed.
 Lemma map_one (w : vec) : map (nmul none_) w = w.
 Proof. rewrite <- (map_id w) at 2. apply map_ext. intros; ring. Qed.
 
@@ -576,5 +582,198 @@ Lemma leaf_good_ptinner (wb pw : vec) (g : list vec) (ow : vec) : g <> [] ->
   vconj wb = wb -> leaf_good (LPtInner wb pw g ow) /\ leaf_good (LPtInnerAdj wb pw g ow).
 Proof.
   intros. split; split; cbn [leaf_adjoint wf]; first [apply leaf_ok_ptinner | apply leaf_ok_ptinner_adj]; assumption.
+Qed.
+
+(* ---------------- ComponentProjection with a slice / list index ---------------- *)
+Lemma offset_S (ws : list vec) j : (j < length ws)%nat ->
+  offset ws (S j) = (offset ws j + length (nth j ws []))%nat.
+Proof.
+  revert j; induction ws as [|w ws IH]; intros j Hj; [cbn in Hj; lia|].
+  destruct j as [|j]; unfold offset in *.
+  - cbn [firstn concat nth]. rewrite app_nil_r. cbn. lia.
+  - cbn [firstn concat nth]. rewrite !app_length. specialize (IH j ltac:(cbn in Hj; lia)).
+    cbn [firstn concat] in IH. rewrite IH. lia.
+Qed.
+Lemma offset_le (ws : list vec) i j : (j < i)%nat -> (i <= length ws)%nat ->
+  (offset ws j + length (nth j ws []) <= offset ws i)%nat.
+Proof.
+  intros Hji Hi. induction i as [|i IH]; [lia|].
+  destruct (Nat.eq_dec j i) as [->|Hne].
+  - rewrite offset_S by lia. lia.
+  - specialize (IH ltac:(lia) ltac:(lia)). rewrite offset_S by lia. lia.
+Qed.
+Lemma offset_total (ws : list vec) i : (i < length ws)%nat ->
+  (offset ws i + length (nth i ws []) <= total ws)%nat.
+Proof.
+  intros Hi. rewrite <- offset_S by assumption. unfold offset, total.
+  rewrite <- (firstn_skipn (S i) ws) at 2. rewrite concat_app, app_length. lia.
+Qed.
+
+(* a vector of the product space, cut at component i *)
+Lemma cut3 (ws : list vec) i (v : vec) : (i < length ws)%nat -> length v = total ws ->
+  v = firstn (offset ws i) v ++ block ws i v ++ skipn (offset ws i + length (nth i ws [])) v.
+Proof.
+  intros Hi Hv. unfold block. rewrite <- (firstn_skipn (offset ws i) v) at 1. f_equal.
+  rewrite <- (firstn_skipn (length (nth i ws [])) (skipn (offset ws i) v)) at 1. f_equal.
+  rewrite skipn_skipn'. reflexivity.
+Qed.
+Lemma block_len (ws : list vec) i (v : vec) : (i < length ws)%nat -> length v = total ws ->
+  length (block ws i v) = length (nth i ws []).
+Proof.
+  intros Hi Hv. unfold block. rewrite firstn_length, skipn_length. pose proof (offset_total ws i Hi). lia.
+Qed.
+Lemma set_block_len (ws : list vec) i (b out : vec) : (i < length ws)%nat -> length out = total ws ->
+  length b = length (nth i ws []) -> length (set_block ws i b out) = total ws.
+Proof.
+  intros Hi Ho Hb. unfold set_block. rewrite !app_length, firstn_length, skipn_length.
+  pose proof (offset_total ws i Hi). lia.
+Qed.
+Lemma block_set_same (ws : list vec) i (b out : vec) : (i < length ws)%nat -> length out = total ws ->
+  length b = length (nth i ws []) -> block ws i (set_block ws i b out) = b.
+Proof.
+  intros Hi Ho Hb. unfold block, set_block. pose proof (offset_total ws i Hi).
+  rewrite skipn_app, firstn_length, Nat.min_l, Nat.sub_diag by lia. cbn [skipn].
+  rewrite (skipn_all2 (firstn _ out)) by (rewrite firstn_length; lia). cbn [app].
+  rewrite firstn_app, <- Hb, Nat.sub_diag, firstn_O, app_nil_r. apply firstn_all.
+Qed.
+Lemma block_set_other (ws : list vec) i j (b out : vec) : (i < length ws)%nat -> (j < length ws)%nat ->
+  i <> j -> length out = total ws -> length b = length (nth i ws []) ->
+  block ws j (set_block ws i b out) = block ws j out.
+Proof.
+  intros Hi Hj Hne Ho Hb.
+  pose proof (offset_total ws i Hi) as Ti. pose proof (offset_total ws j Hj) as Tj.
+  assert (HB : length (block ws i out) = length (nth i ws [])) by (apply block_len; assumption).
+  rewrite (cut3 ws i out Hi Ho) at 2. unfold set_block.
+  remember (block ws i out) as B eqn:EB. clear EB.
+  remember (firstn (offset ws i) out) as A eqn:EA.
+  remember (skipn (offset ws i + length (nth i ws [])) out) as C eqn:EC. clear EC.
+  assert (HA : length A = offset ws i) by (subst A; rewrite firstn_length; lia). clear EA.
+  unfold block. destruct (Nat.lt_ge_cases j i) as [Hlt|Hge].
+  - pose proof (offset_le ws i j Hlt ltac:(lia)) as Hle.
+    rewrite !skipn_app, HA. replace (offset ws j - offset ws i)%nat with 0%nat by lia. cbn [skipn].
+    rewrite !firstn_app, skipn_length, HA.
+    replace (length (nth j ws []) - (offset ws i - offset ws j))%nat with 0%nat by lia.
+    cbn [firstn]. reflexivity.
+  - assert (Hlt : (i < j)%nat) by lia. pose proof (offset_le ws j i Hlt ltac:(lia)) as Hle.
+    rewrite !skipn_app, HA. rewrite (skipn_all2 A) by lia. cbn [app].
+    rewrite Hb, HB. rewrite (skipn_all2 b), (skipn_all2 B) by lia. reflexivity.
+Qed.
+
+(* the product-space weights, cut at component i *)
+Lemma pweights_cut (ws : list vec) (pw : vec) i : (i < length ws)%nat -> length pw = length ws ->
+  exists Wl Wr, pweights pw ws = Wl ++ map (nmul (nth i pw nzero)) (nth i ws []) ++ Wr /\
+                length Wl = offset ws i.
+Proof.
+  intros Hi Hl. destruct (proj_split ws pw i Hi Hl) as (L & R & PL & PR & E1 & E2 & HL & HPL).
+  exists (pweights PL L), (pweights PR R). split.
+  - rewrite E1 at 1. rewrite E2 at 1. rewrite pweights_app by lia. reflexivity.
+  - rewrite pweights_len by lia. unfold offset. rewrite E1 at 1.
+    rewrite firstn_app, HL, Nat.sub_diag, firstn_O, app_nil_r, <- HL, firstn_all. reflexivity.
+Qed.
+Lemma cinner_scale_w p (w x y : vec) : cinner (map (nmul p) w) x y = p * cinner w x y.
+Proof. unfold cinner. change (map (nmul p) w) with (vscal p w). apply wdot_scale_w. Qed.
+
+Lemma set_block_inner (ws : list vec) (pw : vec) i (x b out : vec) :
+  (i < length ws)%nat -> length pw = length ws -> length x = total ws -> length out = total ws ->
+  length b = length (nth i ws []) -> block ws i out = zeros (length (nth i ws [])) ->
+  cinner (pweights pw ws) x (set_block ws i b out) =
+  cinner (pweights pw ws) x out + nth i pw nzero * cinner (nth i ws []) (block ws i x) b.
+Proof.
+  intros Hi Hl Hx Ho Hb Hz. destruct (pweights_cut ws pw i Hi Hl) as (Wl & Wr & EW & HWl).
+  pose proof (offset_total ws i Hi) as Ti.
+  rewrite (cut3 ws i out Hi Ho) at 2. rewrite Hz. unfold set_block.
+  rewrite (cut3 ws i x Hi Hx) at 1 2. rewrite EW.
+  assert (H1 : length (firstn (offset ws i) x) = length Wl) by (rewrite firstn_length; lia).
+  assert (H2 : length (firstn (offset ws i) out) = length Wl) by (rewrite firstn_length; lia).
+  assert (H3 : length (block ws i x) = length (map (nmul (nth i pw nzero)) (nth i ws [])))
+    by (rewrite map_length; apply block_len; assumption).
+  assert (H4 : length b = length (map (nmul (nth i pw nzero)) (nth i ws []))) by (rewrite map_length; exact Hb).
+  assert (H5 : length (zeros (length (nth i ws []))) = length (map (nmul (nth i pw nzero)) (nth i ws [])))
+    by (rewrite map_length; apply zeros_len).
+  rewrite (cinner_app OK Wl) by assumption. rewrite (cinner_app OK Wl) by assumption.
+  rewrite (cinner_app OK (map (nmul (nth i pw nzero)) (nth i ws []))) by assumption.
+  rewrite (cinner_app OK (map (nmul (nth i pw nzero)) (nth i ws []))) by assumption.
+  rewrite !cinner_scale_w, (cinner_zeros_r OK). ring.
+Qed.
+
+Fixpoint multi_inner (ws : list vec) (idxs : list nat) (x y : vec) : T :=
+  match idxs with
+  | [] => nzero
+  | i :: r => let n := length (nth i ws []) in
+      cinner (nth i ws []) (block ws i x) (firstn n y) + multi_inner ws r x (skipn n y)
+  end.
+Lemma multi_inner_concat (ws : list vec) (idxs : list nat) (x y : vec) :
+  Forall (fun i => (i < length ws)%nat) idxs -> length x = total ws ->
+  length y = length (concat (map (fun i => nth i ws []) idxs)) ->
+  cinner (concat (map (fun i => nth i ws []) idxs)) (concat (map (fun i => block ws i x) idxs)) y =
+  multi_inner ws idxs x y.
+Proof.
+  intros Hidx Hx. revert y; induction Hidx as [|i r Hi _ IH]; intros y Hy; [reflexivity|].
+  cbn [map concat multi_inner] in *. rewrite app_length in Hy.
+  rewrite <- (firstn_skipn (length (nth i ws [])) y) at 1.
+  rewrite (cinner_app OK) by (rewrite ?firstn_length, ?block_len; auto; lia).
+  rewrite IH by (rewrite skipn_length; lia). reflexivity.
+Qed.
+
+Lemma put_blocks_inner (ws : list vec) (pw : vec) (x : vec) : forall (idxs : list nat) (y out : vec),
+  NoDup idxs -> length pw = length ws -> length x = total ws -> length out = total ws ->
+  Forall (fun i => (i < length ws)%nat /\ nth i pw nzero = none_ /\
+                   block ws i out = zeros (length (nth i ws []))) idxs ->
+  length y = length (concat (map (fun i => nth i ws []) idxs)) ->
+  length (put_blocks ws idxs y out) = total ws /\
+  cinner (pweights pw ws) x (put_blocks ws idxs y out) =
+  cinner (pweights pw ws) x out + multi_inner ws idxs x y.
+Proof.
+  induction idxs as [|i r IH]; intros y out Hnd Hl Hx Ho Hall Hy.
+  - cbn [put_blocks multi_inner]. split; [assumption | ring].
+  - destruct (Forall_inv Hall) as (Hi & Hp & Hz). pose proof (Forall_inv_tail Hall) as Hr.
+    inversion Hnd as [|? ? Hnin Hnd']; subst.
+    cbn [map concat] in Hy. rewrite app_length in Hy.
+    cbn [put_blocks multi_inner].
+    assert (Hb : length (firstn (length (nth i ws [])) y) = length (nth i ws [])) by (rewrite firstn_length; lia).
+    destruct (IH (skipn (length (nth i ws [])) y) (set_block ws i (firstn (length (nth i ws [])) y) out))
+      as (L1 & L2); try assumption.
+    + apply set_block_len; assumption.
+    + clear -Hr Hnin Hi Ho Hb. induction Hr as [|j r (Hj & Hpj & Hzj) _ IHr]; constructor.
+      * split; [assumption|]. split; [assumption|].
+        rewrite block_set_other; try assumption. intros ->. apply Hnin. left; reflexivity.
+      * apply IHr. intros Hin. apply Hnin. right; assumption.
+    + rewrite skipn_length. lia.
+    + split; [exact L1|]. rewrite L2, (set_block_inner ws pw i x) by assumption. rewrite Hp. ring.
+Qed.
+
+Lemma leaf_ok_projm (ws : list vec) (pw : vec) (idxs : list nat) : NoDup idxs -> length pw = length ws ->
+  Forall (fun i => (i < length ws)%nat /\ nth i pw nzero = none_) idxs ->
+  leaf_ok (LProjM ws pw idxs).
+Proof.
+  intros Hnd Hl Hall. split; [|split; reflexivity]. cbn [leaf_dom leaf_ran leaf_adjoint eval eval_leaf].
+  assert (Hlen : length (pweights pw ws) = total ws) by (rewrite pweights_len by assumption; reflexivity).
+  assert (Hidx : Forall (fun i => (i < length ws)%nat) idxs)
+    by (clear -Hall; induction Hall as [|i r [Hi _] _ IH]; constructor; assumption).
+  assert (Hz : forall i, (i < length ws)%nat -> block ws i (zeros (total ws)) = zeros (length (nth i ws []))).
+  { intros i Hi. unfold block, zeros. rewrite skipn_repeat', firstn_repeat'. f_equal.
+    pose proof (offset_total ws i Hi). lia. }
+  assert (Hall' : Forall (fun i => (i < length ws)%nat /\ nth i pw nzero = none_ /\
+                     block ws i (zeros (total ws)) = zeros (length (nth i ws []))) idxs).
+  { clear -Hall Hz. induction Hall as [|i r [Hi Hp] _ IH]; constructor; auto. }
+  split; [|split]; rewrite ?Hlen.
+  - intros x Hx. cbn [eval_leaf]. clear -Hidx Hx. induction Hidx as [|i r Hi _ IH]; [reflexivity|].
+    cbn [map concat]. rewrite !app_length, IH, block_len by assumption. reflexivity.
+  - intros y Hy. cbn [eval eval_leaf]. destruct (put_blocks_inner ws pw (zeros (total ws)) idxs y (zeros (total ws))) as (L1 & _);
+      try assumption; try apply zeros_len.
+  - intros x y Hx Hy. cbn [eval eval_leaf]. rewrite multi_inner_concat by assumption.
+    destruct (put_blocks_inner ws pw x idxs y (zeros (total ws))) as (_ & L2);
+      try assumption; try apply zeros_len.
+    rewrite L2, (cinner_zeros_r OK). ring.
+Qed.
+Lemma leaf_ok_projm_adj (ws : list vec) (pw : vec) (idxs : list nat) : NoDup idxs -> length pw = length ws ->
+  Forall (fun i => (i < length ws)%nat /\ nth i pw nzero = none_) idxs ->
+  vconj (pweights pw ws) = pweights pw ws ->
+  vconj (concat (map (fun i => nth i ws []) idxs)) = concat (map (fun i => nth i ws []) idxs) ->
+  leaf_ok (LProjMAdj ws pw idxs).
+Proof.
+  intros Hnd Hl Hall Hr1 Hr2. split; [|split; reflexivity]. cbn [leaf_dom leaf_ran leaf_adjoint].
+  destruct (leaf_ok_projm ws pw idxs Hnd Hl Hall) as (Hq & _). cbn [leaf_dom leaf_ran leaf_adjoint] in Hq.
+  apply adj_pair_sym; assumption.
 Qed.
 End Leaf.
